@@ -251,6 +251,7 @@ func init() {
 		c.PerFile = 150
 		c.Rule = "random FUSE/PG parameter sets built through the public constructors; values from ordinary, dense ('0'..x, pushing the separators onto later code points), punctuation, unicode and separator-looking streams; non-trivial = encoding succeeded with a separator other than the default pair, distinct by separators+shape"
 		emit := func(cs *c21Case) {
+			c.Pending(cs)
 			c21Run(cs)
 			if cs.AddErr {
 				return // refused by the constructors before any encoding
